@@ -180,9 +180,6 @@ theorem kh_parseMapscriptsStatement (env : Env) (fuel : Nat) : KH (parseMapscrip
   hfin [(frame_parseScopeModifier _).wp_iff, (kh_parseMapScriptEntries _ _ _ _ _ _).wp_iff]
 
 /-- `const` statements write `constants` only. -/
-def setConsts (s : PState) (c : List (String × String)) : PState := { s with constants := c }
-@[simp] theorem hz_setConsts (s : PState) (c : List (String × String)) : hz (setConsts s c) = hz s := id rfl
-
 theorem kh_parseConstant (fuel : Nat) : KH (parseConstant fuel) := by
   intro s
   unfold parseConstant
